@@ -10,7 +10,7 @@ use crate::tape::Tape;
 use std::collections::BTreeSet;
 
 /// after finding F9 is repaired: arrays with several dictionary entries may be joined
-pub const MULTI_KEY_JOIN: bool = false;
+pub const MULTI_KEY_JOIN: bool = true;
 
 pub struct MutGen<'t, 'a> {
     pub t: &'t mut Tape<'a>,
